@@ -116,6 +116,10 @@ def run(ctx):
     naturals = natural_matrix(ctx)
     straces, sacc, ntraces, nacc = sc.replay_and_validate(ctx, scripts, naturals, "C12")
     design.result()
+    ctx.cov["natural_runs"] = [{"params": t["params"], "stats": t["stats"], "raised": t["raised"]} for t in ntraces[:12]]
+    describe(ctx)
+    if ctx.violations:
+        return          # verdict first: guards and canaries below are self-tests of the machinery, never a way to hide it
     # vacuity guards on what the real code was made to do
     st = [t["stats"] for t in ntraces]
     raised = [t["raised"] for t in ntraces]
@@ -124,7 +128,6 @@ def run(ctx):
         raise core.MachineryFailure(f"natural runs did not exercise retries / the rule / exhaustion: {st} {raised}")
     if not (any(t["ev"][-1]["ev"] == "raise" for t in straces) and any(t["overrun"] == 0 and t["unused"] == 0 for t in straces)):
         raise core.MachineryFailure("scripted replays never raised or never consumed their script")
-    ctx.cov["natural_runs"] = [{"params": t["params"], "stats": t["stats"], "raised": t["raised"]} for t in ntraces[:12]]
     undriven = [t for t in ntraces if not t["params"].get("current") and t["params"].get("adaptive", True)]
     ctx.cov["undriven_runs_end_at_dt_max"] = [t["stats"]["last_tent"] == t["params"]["dt_max"] for t in undriven]
     for n in sorted(sacc)[:3]:
@@ -141,6 +144,9 @@ def run(ctx):
         items += [("StepCtlTrace", ntraces, nacc, sc.flags_cfg(), mut, f"C12/{mut.__name__}", sc.strip_trace)
                   for mut in (sc.mut_flags_rule, sc.mut_flags_mult)]
     sc.canaries_concurrently(ctx, items)
+
+
+def describe(ctx):
     ctx.cov["rule"] = ("behaviours of StepCtl (which attempts are refused, delta of each accepted step, kernel outputs) exported "
                        "by TLC and replayed on the real TDGLSolver.update with scripted physics, plus natural solver runs; a "
                        "scripted case is non-trivial when it contains a refusal, a screening iteration or a step to which the "
